@@ -4,10 +4,49 @@ from python_minifier.rename.binding import BuiltinBinding, NameBinding
 from python_minifier.rename.util import builtins, get_global_namespace, get_nonlocal_namespace
 
 
+def class_bound_names(classdef):
+    """
+    The names that are bound by the body of a class
+
+    These are local to the class body, so are looked up in the class namespace and then the global namespace,
+    skipping any enclosing function namespaces.
+    """
+
+    if not hasattr(classdef, 'bound_names'):
+        bound_names = set()
+        declared_nonlocal = set()
+
+        for node in ast.walk(classdef):
+            if node is classdef or getattr(node, 'namespace', None) is not classdef:
+                continue
+
+            if isinstance(node, ast.Name) and isinstance(node.ctx, (ast.Store, ast.Del)):
+                bound_names.add(node.id)
+            elif isinstance(node, (ast.FunctionDef, ast.AsyncFunctionDef, ast.ClassDef)):
+                bound_names.add(node.name)
+            elif isinstance(node, ast.alias):
+                bound_names.add((node.asname or node.name).split('.')[0])
+            elif isinstance(node, ast.ExceptHandler) and isinstance(node.name, str):
+                bound_names.add(node.name)
+            elif isinstance(node, (ast.MatchAs, ast.MatchStar)) and node.name is not None:
+                bound_names.add(node.name)
+            elif isinstance(node, ast.MatchMapping) and node.rest is not None:
+                bound_names.add(node.rest)
+            elif isinstance(node, ast.Nonlocal):
+                declared_nonlocal.update(node.names)
+
+        classdef.bound_names = bound_names - declared_nonlocal
+
+    return classdef.bound_names
+
+
 def get_binding(name, namespace):
     if name in namespace.global_names and not isinstance(namespace, ast.Module):
         return get_binding(name, get_global_namespace(namespace))
     elif name in namespace.nonlocal_names and not isinstance(namespace, ast.Module):
+        if isinstance(namespace, ast.ClassDef) and name in class_bound_names(namespace):
+            # A name local to a class body that isn't (yet) a class attribute is found in the global namespace
+            return get_binding(name, get_global_namespace(namespace))
         return get_binding(name, get_nonlocal_namespace(namespace))
 
     for binding in namespace.bindings:
